@@ -22,6 +22,8 @@ def kogge_stone(a, b, cin=0):
     prop_orig = a ^ b
     prop_bits = [i for i in prop_orig]
     gen_bits = [i for i in a & b]
+    # the carry in generates out of bit 0 when bit 0 propagates
+    gen_bits[0] = gen_bits[0] | (prop_bits[0] & pyrtl.as_wires(cin))
     prop_dist = 1
 
     # creation of the carry calculation
